@@ -18,3 +18,7 @@ NATIVE_COVERS = {"_process_match": ["RuleSet.iter_matches"]}
 def native(tier, seed):
     from vf import rewrite_native
     return [rewrite_native.sweep(tier, seed)]
+
+
+# thorough tier: deliberate edits that must turn an obligation red (applied to a scratch copy, never to /repo)
+MUTATIONS = [('contracts.rewrite', '_process_match', 'dask/rewrite.py', '        if v in subs and subs[v] != s:', '        if v in subs and subs[v] == s:')]
